@@ -67,19 +67,31 @@ func cmdContinue(p *lang.Process) error {
 	}
 
 	scope := p.Scope.Id
-	proc := p.Parent
-	for {
-		if proc.Name.String() == name {
-			return nil
-		}
-		if proc.Id == scope {
+
+	// identify the nearest enclosing block called name (not merely a sibling of that name)
+	target := p.Parent
+	for target.Name.String() != name {
+		if target.Id == scope {
 			return fmt.Errorf(
 				"no block found named `%s` within the scope of `%s`",
 				name, p.Scope.Name.String(),
 			)
 		}
+		target = target.Parent
+	}
 
+	proc := p.Parent
+	if proc == target {
+		if target.Id == scope {
+			return nil
+		}
+		// `continue` sits directly in the body of the named loop: skip the
+		// statements that follow it in this iteration
+		proc = p.Next
+	}
+	for proc != nil && proc != target && proc != proc.Next {
 		proc.Done()
 		proc = proc.Next
 	}
+	return nil
 }
